@@ -294,7 +294,7 @@ def _bits_to_double(b):
     return struct.unpack('>d', int(b, 2).to_bytes(8, 'big'))[0]
 
 def cbmc_contract(ctx, sub, fn, file, clauses, callee_contracts=None, externs=(), checks=None, timeout=None,
-                  nargs=None, extra_flags=(), replace=()):
+                  nargs=None, extra_flags=(), replace=(), ghosts=(), harness_extra='', pick=None):
     """enforce `clauses` (verbatim __CPROVER_ clauses) on the real function fn (extracted to C on this run).
     callee_contracts: name -> clauses for callees that are replaced by their contract (externs)."""
     from . import cprint, cbmc, native
@@ -302,12 +302,15 @@ def cbmc_contract(ctx, sub, fn, file, clauses, callee_contracts=None, externs=()
     fds = ctx.w.find(fn, file)
     if nargs is not None:
         fds = [f for f in fds if len(f.params) == nargs]
+    if pick is not None:
+        fds = [f for f in fds if pick(f)]
     if len(fds) != 1:
         ctx.record(sub, ERROR, 'A', 0, 'extraction: %d definitions of %s in %s' % (len(fds), fn, file))
         return None
     fd = fds[0]
     contracts = dict(callee_contracts or {})
     cp = cprint.CPrinter(ctx.w, contracts=contracts, externs=set(externs) | set((callee_contracts or {}).keys()))
+    cp.ghost_fns = set(ghosts)
     m = cp.mangle(fd)
     contracts[m] = clauses
     try:
@@ -328,7 +331,7 @@ def cbmc_contract(ctx, sub, fn, file, clauses, callee_contracts=None, externs=()
                 decls.append('%s %s;' % (cty, nm))
                 args.append(nm)
         harness = 'void harness(void) { %s %s(%s); }' % (' '.join(decls), m, ', '.join(args))
-        src = cp.source(harness=harness)
+        src = cp.source(extra_decls=harness_extra, harness=harness)
     except (cprint.PrintError, Exception) as e:
         from .values import EvalError
         ctx.record(sub, ERROR, 'A', time.time() - t0, 'extraction: %s: %s' % (type(e).__name__, e))
